@@ -189,7 +189,7 @@ PROPS["C20"] = {
     "undecided": ["internal-error freedom for all modules", "completeness of proposals for all scopes"],
 }
 PROPS["C03"] = {
-    "sidecars": ["c03_context.py", "c01_collector.py"],
+    "sidecars": ["c03_context.py", "c01_collector.py", "c03_breaks.py"],
     "level": "exploration",
     "claim": "Mostly bounded and behavioural: 16 464 extractions of statement regions are executed before and after on 9 inputs each (same results, output and "
              "exceptions, or refused), plus fixed regions for control flow.  Deductive kernels: the analysis' conditional/loop context managers restore the enclosing "
@@ -207,7 +207,7 @@ PROPS["C05"] = {
     "undecided": ["all import-rewriting paths of move.py", "behaviour for all projects"],
 }
 PROPS["C17"] = {
-    "sidecars": ["c17_assign.py", "c14_worder.py"],
+    "sidecars": ["c17_assign.py", "c14_worder.py", "c17_writes.py"],
     "level": "exploration",
     "claim": "Mostly bounded and behavioural (29 projects executed before and after the refactoring).  Deductive kernel: the read/write classification "
              "encapsulate-field relies on -- get_assignment_type reports only operators ending in '=' of 1-3 characters and never a comparison (==, <=, >=, !=) -- for "
